@@ -326,11 +326,34 @@ def d3_companion(ctx):
         gs = [(src(t), pol) for t, pol in cfg.guards(d.node)]
         if any("meta_file" in t and "sglx_file" in t and pol for t, pol in gs):
             meta_branch.append(d)
+    branch_values = {}
+    if not meta_branch:
+        # the branch written as a conditional expression: file_bin = <lookup> if meta_file == sglx_file else sglx_file
+        for d in stores:
+            if isinstance(d.value, ast.IfExp) and "meta_file" in src(d.value.test) and "sglx_file" in src(d.value.test):
+                eq = isinstance(d.value.test, ast.Compare) and isinstance(d.value.test.ops[0], (ast.Eq, ast.Is))
+                meta_branch.append(d)
+                branch_values[d.idx] = d.value.body if eq else d.value.orelse
     if not meta_branch:
         raise AnchorMissing("Reader.__init__: `meta_file == sglx_file` branch not found")
     sufs = set()
     live = [d for d in meta_branch if all(x.idx != d.idx for x in dead)]
     for d in live:
+        val = branch_values.get(d.idx, d.value)
+        exprs = [val]
+        # a lookup helper: its returned expressions carry the candidate suffixes
+        for c in find(val, ast.Call):
+            q_ = repo.resolve_call(fi, c)
+            if q_ and repo.has_fn(q_) and q_.startswith("spikeglx."):
+                exprs += [n_ for n_ in ast.walk(repo.fn(q_).node) if isinstance(n_, ast.expr)]
+        for ex_ in exprs:
+            for c in find(ex_, ast.Call):
+                if call_name(c) == "with_suffix" and c.args and isinstance(c.args[0], ast.Constant):
+                    sufs.add(c.args[0].value)
+            for c in find(ex_, ast.Constant):
+                if isinstance(c.value, str) and c.value.startswith(".") and len(c.value) <= 6:
+                    sufs.add(c.value)
+    for d in []:
         for c in find(d.value, ast.Call):
             if call_name(c) == "with_suffix" and c.args and isinstance(c.args[0], ast.Constant):
                 sufs.add(c.args[0].value)
